@@ -105,10 +105,10 @@ def mon_unchanged_on_raise(ctx, res):
     e = ctx.exp
     note = e.note if e is not None else ''
     res.by_class[f"{ctx.case['kind']}:{note}:{obs.exc}"] += 1
-    if obs.after != ctx.before:
+    if ctx.changed:
         d = None
         try:
-            d = tree.first_diff(tree.node(tree.read(ctx.before)), tree.node(tree.read(obs.after)))
+            d = tree.first_diff(tree.node(tree.read(obs.before or ctx.before)), tree.node(tree.read(obs.after)))
         except Exception as ex:  # noqa
             d = f'unreadable after state: {ex}'
         yield (f"{ctx.case['kind']}:{note}:mutated-before-raise:{obs.exc}",
@@ -143,7 +143,16 @@ def _pos_sig(seq, s, named):
 
 
 def mon_nothing_skipped(ctx, res):
-    if ctx.level not in ('story', 'item') or ctx.view.completed:
+    if ctx.view.completed:
+        return
+    if ctx.level not in ('story', 'item'):
+        # roMetadataReplace / roReplace / roDelete / roReadyToAir name no story or item: when they are
+        # applied they emit no mosromgr warning
+        if ctx.obs.exc is None and ctx.obs.phase != 'parse-msg':
+            res.extra['fully_applicable_cases'] += 1
+            if ctx.obs.warns:
+                yield (f"{ctx.case['kind']}::spurious:{ctx.obs.warns[0]}",
+                       f"{_case_str(ctx.case)}: applied without error but emitted {list(ctx.obs.warns)}")
         return
     e = ctx.exp
     case = ctx.case
@@ -189,6 +198,8 @@ def mon_nothing_skipped(ctx, res):
     elif e.op in ('insert', 'append', 'replace'):
         if e.target[0] in ('unres',):
             return
+        if e.target[0] == 'lenient' and sum(W.values()):
+            return      # the undefined target was reported as not found: nothing had to be inserted
         missing = [s for s in acted if after.count(s) != 1]
         if missing:
             yield (f'{kind}:{e.note}:carried-not-applied',
@@ -572,8 +583,7 @@ def mon_completion(ctx, res):
     if obs.phase == 'parse-msg' and obs.exc:
         return      # a message that cannot be classified is C08/C12's business, not a completion fault
     if obs.phase == 'parse-ro' and obs.exc:
-        yield (f'{kind}:state-unreadable:{obs.exc}', f'reachable running order does not read back: {obs.exc}: {obs.exc_msg}')
-        return
+        return      # a state that does not read back is C14's business
     bv = ctx.view
     ro = ctx.ro_obj
     was = bv.completed
@@ -593,10 +603,10 @@ def mon_completion(ctx, res):
     if was:
         res.extra['post_completion_transitions'] += 1
         res.by_class[f'post:{kind}'] += 1
-        if obs.exc != 'MosCompletedMergeError':
+        if not obs.completed_error:
             yield (f'{kind}:post-completion:{obs.exc or "accepted"}',
                    f'{_case_str(case)} added to a completed running order: expected MosCompletedMergeError, got {obs.exc or "no exception"}')
-        if obs.after != ctx.before:
+        if ctx.changed:
             yield (f'{kind}:post-completion:changed', f'{_case_str(case)} added to a completed running order changed it')
         if not now:
             yield (f'{kind}:post-completion:flag-lost', f'{_case_str(case)}: completed flag lost')
@@ -633,8 +643,6 @@ def mon_completion(ctx, res):
     if now or rt_completed:
         yield (f'{kind}:completed-without-roDelete',
                f'{_case_str(case)}: running order reported completed (live={now}, after round trip={rt_completed}) although no roDelete was merged')
-    if rt_cls != 'RunningOrder' and obs.after is not None:
-        yield (f'{kind}:round-trip-class', f'{_case_str(case)}: serialised running order read back as {rt_cls}')
 
 
 mon_completion.touch_before = True
@@ -669,13 +677,22 @@ class RoundTrip:
             yield ('STATE:class', f'reachable state reads back as {type(ro).__name__}')
             return
         try:
-            again = str(ro)
+            s1 = str(ro)
+            ro2, e2 = target.parse(ns, s1)
+            s2 = str(ro2) if ro2 is not None else None
         except Exception as e:  # noqa
             yield ('STATE:reserialise-raised', f'{type(e).__name__}: {e}')
             return
-        if again != text:
-            d = tree.first_diff(tree.node(tree.read(text)), tree.node(tree.read(again)))
-            yield ('STATE:not-idempotent', f'str(from_string(s)) != s: {d}')
+        if s2 != s1:
+            yield ('STATE:not-idempotent', 'the serialisation of the state does not read back to the same serialisation: '
+                   + (str(e2) if s2 is None else str(tree.first_diff(tree.node(tree.read(s1)), tree.node(tree.read(s2))))))
+        # ... and nothing may be lost on the way: the serialisation must hold the same document as the state
+        try:
+            if tree.node(tree.read(s1)) != tree.node(view.root):
+                yield ('STATE:serialisation-loses-content',
+                       f'str(ro) differs from the document it was read from: {tree.first_diff(tree.node(view.root), tree.node(tree.read(s1)))}')
+        except Exception as e:  # noqa
+            yield ('STATE:not-well-formed', f'str(ro) is not well-formed: {e}')
         n_ro = sum(1 for c in view.root if c.tag == 'roCreate')
         n_meta = sum(1 for c in view.root if c.tag == 'mosromgrmeta')
         if n_ro != 1:
@@ -712,7 +729,7 @@ class RoundTrip:
         except Exception as e:  # noqa
             yield (f'{kind}:not-well-formed', f'{_case_str(ctx.case)}: serialisation is not well-formed XML: {e}')
             return
-        if self.bisim_harness is None or obs.exc is not None or obs.after == ctx.before:
+        if self.bisim_harness is None or obs.exc is not None or not ctx.changed:
             return
         if obs.after in res.successors or not ctx.harness.accept(ctx):
             return
@@ -791,7 +808,7 @@ class Independence:
                    f'{_case_str(ctx.case)}: merging the same message object a second time gives exc={ob.exc} warns={list(ob.warns)}, '
                    f'a fresh copy gives exc={of.exc} warns={list(of.warns)}' + ('' if ob.after == of.after else '; documents differ'))
             return
-        if o1.exc is not None or o1.after == s:
+        if o1.exc is not None or o1.after == o1.before:
             return
         # follow-up edits on ro1 after both ro1 and ro2 received m
         av = ctx.after_view
@@ -872,7 +889,7 @@ class StateMonitor:
 
     def __call__(self, ctx, res):
         obs = ctx.obs
-        if obs.exc is not None or obs.after is None or obs.after == ctx.before:
+        if obs.exc is not None or obs.after is None or not ctx.changed:
             return
         if self._seen is None:
             self._seen = set()
@@ -984,14 +1001,6 @@ class Accessors(StateMonitor):
                        f'ro.{name} raised {type(e).__name__}: {e} (stories {_fmt(view.story_ids)})')
                 if name == 'stories':
                     return
-        for fn_name in ('__repr__', '__str__'):
-            v, e = _call(lambda: getattr(ro, fn_name)())
-            if e is not None:
-                yield (f'RunningOrder.{fn_name}:raised:{type(e).__name__}', f'{fn_name} raised {e}')
-        with _ctxlib.redirect_stdout(_io.StringIO()):
-            v, e = _call(ro.inspect)
-        if e is not None:
-            yield (f'RunningOrder.inspect:raised:{type(e).__name__}', f'ro.inspect() raised {type(e).__name__}: {e}')
         stories = ro.stories
         if [s.id for s in stories] != view.story_ids:
             yield ('RunningOrder.stories:ids-differ', f'ro.stories ids {[s.id for s in stories]} vs document {view.story_ids}')
@@ -1008,9 +1017,6 @@ class Accessors(StateMonitor):
                 ncalls += 1
                 if e is not None:
                     yield (f'Story.{name}:raised:{type(e).__name__}', f'story {sv.id}: .{name} raised {type(e).__name__}: {e}')
-            v, e = _call(lambda: (repr(s), str(s)))
-            if e is not None:
-                yield (f'Story.repr:raised:{type(e).__name__}', f'story {sv.id}: repr/str raised {e}')
             exp_slug = _blank_none(tree.child_text(sv.elem, 'storySlug'))
             v, e = _call(lambda: s.slug)
             if e is None and v != exp_slug:
@@ -1071,12 +1077,20 @@ class Timing(StateMonitor):
         data = [_story_timing(sv.elem) for sv in view.stories]
         durs = [d for d, _, _ in data]
         # per-story duration: StoryDuration, else TextTime + MediaTime (missing one = 0)
-        for s, sv, d in zip(stories, view.stories, durs):
+        for s, sv, (d, st, en) in zip(stories, view.stories, data):
             v, e = _call(lambda: s.duration)
-            if e is not None:
-                continue
-            if v != d:
+            if e is None and d is not None and v != d:
+                # (a story without any timing data is C15's business: None there)
                 yield ('Story.duration:value', f'story {sv.id}: duration {v!r}, recomputed {d!r}')
+            # explicit times are returned as given, whatever the other stories carry
+            if st is not None:
+                v, e = _call(lambda: s.start_time)
+                if e is None and v != st:
+                    yield ('Story.start_time:value:explicit', f'story {sv.id}: start_time {v!r}, explicit StoryStarted {st!r}')
+            if en is not None:
+                v, e = _call(lambda: s.end_time)
+                if e is None and v != en:
+                    yield ('Story.end_time:value:explicit', f'story {sv.id}: end_time {v!r}, explicit StoryEnded {en!r}')
         if any(d is None for d in durs):
             res.extra['states_with_a_story_without_duration'] += 1
             return
@@ -1085,7 +1099,7 @@ class Timing(StateMonitor):
         ro_start = _iso(ed.text) if ed is not None and ed.text else None
         v, e = _call(lambda: ro.duration)
         exp = sum(durs) if durs else 0
-        if e is None and v != exp:
+        if e is None and durs and v != exp:
             yield ('RunningOrder.duration:value', f'ro.duration {v!r}, sum of story durations {exp!r} ({durs})')
         v, e = _call(lambda: ro.start_time)
         if e is None and v != ro_start:
@@ -1114,6 +1128,9 @@ class Timing(StateMonitor):
 
 
 def _script_of(se):
+    """-> list of (stripped text, status) for the direct <p> children, status in
+    'in' (must be in the script) | 'either' (the statement does not decide).  Paragraphs that are
+    empty / whitespace-only or unambiguously wrapped in one pair of round or angle brackets are left out."""
     out = []
     for c in se:
         if c.tag != 'p':
@@ -1122,10 +1139,29 @@ def _script_of(se):
         if t is None or t.strip() == '':
             continue
         st = t.strip()
-        if (st[0] == '(' and st[-1] == ')') or (st[0] == '<' and st[-1] == '>'):
+        wrapped = (st[0] == '(' and st[-1] == ')') or (st[0] == '<' and st[-1] == '>')
+        if not wrapped:
+            out.append((st, 'in'))
             continue
-        out.append(st)
+        close = st[-1]
+        # one pair around the whole text, given without padding: a technical note beyond doubt
+        if close not in st[1:-1] and t == st:
+            continue
+        # '(a) and (b)' (several pairs) or '  (padded)  ' (padding outside the brackets): "wrapped in
+        # brackets" can be read either way
+        out.append((st, 'either'))
     return out
+
+
+def _script_matches(got, want):
+    """got: list of strings; want: list of (text, status) in order."""
+    i = 0
+    for text, status in want:
+        if i < len(got) and got[i] == text:
+            i += 1
+        elif status == 'in':
+            return False
+    return i == len(got)
 
 
 def _body_of(se):
@@ -1167,7 +1203,7 @@ class ScriptBody(StateMonitor):
             v, e = _call(lambda: s.script)
             if e is not None:
                 yield (f'Story.script:raised:{type(e).__name__}', f'story {sv.id}: script raised {type(e).__name__}: {e}')
-            elif list(v) != es:
+            elif not _script_matches(list(v), es):
                 yield ('Story.script:value', f'story {sv.id}: script {v!r}, derived from the document {es!r}')
             v, e = _call(lambda: s.body)
             if e is not None:
@@ -1179,7 +1215,7 @@ class ScriptBody(StateMonitor):
         v, e = _call(lambda: ro.script)
         if e is not None:
             yield (f'RunningOrder.script:raised:{type(e).__name__}', f'ro.script raised {type(e).__name__}: {e}')
-        elif list(v) != all_script:
+        elif not _script_matches(list(v), all_script):
             yield ('RunningOrder.script:value', f'ro.script {v!r}, concatenation of the stories {all_script!r}')
         v, e = _call(lambda: ro.body)
         if e is not None:
@@ -1211,7 +1247,7 @@ class LiveSecondStep:
         from .explore import Ctx
         obs = ctx.obs
         kind = ctx.case['kind']
-        if obs.exc is not None or obs.after is None or obs.after == ctx.before:
+        if obs.exc is not None or obs.after is None or not ctx.changed:
             return
         key = (hash(ctx.before), kind)
         if self._count[key] >= self.first_per_kind:
